@@ -108,6 +108,11 @@ var recipes = [][2]string{
 	{"/plain/l1[name=X]/cfg/pres", "/plain/l1[name=X]/cfg/mode"},
 	{"/plain/l2a[a=X][b=Y]/v", "/plain/l2a[a=Y][b=X]/v"},        // swapped keys
 	{"/plain/l2z[zone=X][name=Y]/v", "/plain/l2z[zone=Y][name=X]/v"},
+	// (appended) equal when the elements are simply concatenated, without any separator
+	{"/plain/l2a[a=XY][b=Z]/v", "/plain/l2a[a=X][b=YZ]/v"},
+	{"/plain/l3a[k1=XY][k2=Z][k3=X]/v", "/plain/l3a[k1=X][k2=YZ][k3=X]/v"},
+	{"/plain/l2z[zone=XY][name=Z]/v", "/plain/l2z[zone=X][name=ZY]/v"},
+	{"/plain/l1[name=XY]/sub[id=1]/v", "/plain/l1[name=X]/sub[id=1]/v"},
 }
 var recipeFrags = []string{"x", "y", "z", "x/y", "x y", "x:y", "[x]", "a", "x.y"}
 
